@@ -3,10 +3,11 @@
 (*  (1) checks the representation layer: every production path yields a well-formed number of    *)
 (*      the intended value (PathSound), and small values really occur boxed (header.boxed_small); *)
 (*  (2) checks the refinement "layer-B consumer = layer-A consumer of the value" for every        *)
-(*      (value, path, consumer): it holds for every consumer except first-argument indexing,      *)
-(*      whose B-model (hash lookup keyed by the raw cell) selects no clause for a boxed key; these  *)
-(*      design-level counter-examples are printed with refines = FALSE and summarised in the       *)
-(*      header (the verdict on the implementation is still only Expect, layer A);                  *)
+(*      (value, path, consumer) (invariant Refinement).  With NumRep!BoxedArgTakesVariablePath =   *)
+(*      FALSE (the code before /repo commit 86aa075) first-argument indexing does not refine: a    *)
+(*      boxed key selects no clause; such design-level counter-examples are printed with           *)
+(*      refines = FALSE and summarised in the header (the verdict on the implementation is only     *)
+(*      ever Expect, layer A);                                                                      *)
 (*  (3) prints one vector per (value, path, consumer) [quick, thorough] and per                    *)
 (*      (value, path, path, pair consumer) [thorough] with the goal texts and the expected answer. *)
 EXTENDS NumRep, Json
@@ -48,8 +49,8 @@ PathSound ==
 (* (2) *)
 RefinesHere ==
   IF q = "" THEN Refines(c, rp) ELSE PairConsumerB(c, rp, rq) = PairExpect(c, v)
-RefinementOutsideIndexing ==
-  (phase = "case" /\ c \notin IndexConsumers \cup {"p_index"}) => RefinesHere
+Refinement ==
+  (phase = "case" /\ (BoxedArgTakesVariablePath \/ c \notin IndexConsumers \cup {"p_index"})) => RefinesHere
 
 Subst == [V |-> ToDec(v), VP1 |-> ToDec(Add(v, One)), VM1 |-> ToDec(Sub(v, One)),
           VP2 |-> ToDec(Add(v, Two)), VM2 |-> ToDec(Sub(v, Two))]
